@@ -568,6 +568,9 @@ func init() {
 					if len(in.src) > 200 {
 						apis = []string{"parse", "interpret"}
 					}
+					if strings.HasPrefix(in.src, "\n\n\n") {
+						apis = []string{"parse"} // the many-lines inputs
+					}
 					for _, api := range apis {
 						for _, tb := range []int{0, 1, 2} {
 							if tb > 0 && strings.HasPrefix(in.src, "\n\n\n") {
@@ -582,7 +585,7 @@ func init() {
 							}
 							c.Do(subC11, &c11Case{Src: in.src, Script: sc, API: api, TokBuf: tb, Bound: b})
 							// an input whose Close reports an error: closed once all the same, nothing left behind
-							if tb == 0 && (api == "parse" || api == "interpret") && len(sc) <= 2 {
+							if tb == 0 && api == "parse" && len(sc) <= 2 {
 								c.Do(subC11, &c11Case{Src: in.src, Script: sc, API: api, TokBuf: tb, Bound: bound, CloseFails: true})
 							}
 							// and ALL interleavings (no bound) with state-key pruning; in the quick tier only for
